@@ -10,6 +10,9 @@ from vlib import ref_geom as G
 DIST_MODES = ("CENTERDISTANCE", "PLANEDISTANCE")
 
 
+CAMS_X = ["cam_front", "cam_front_left", "cam_back", "cam_traffic_light", "cam_traffic_light_near"]
+
+
 @st.composite
 def match_cases3d(draw, tier="quick", ties=False, contest=False):
     big = tier == "thorough"
@@ -39,14 +42,30 @@ def match_cases3d(draw, tier="quick", ties=False, contest=False):
             "task": draw(st.sampled_from(["detection", "detection", "tracking", "fp_validation"])),
         }
     )
+    _uuid_variants(draw, sc)
     return sc
+
+
+def _uuid_variants(draw, sc):
+    """Geometric matching does not depend on instance ids: detections usually carry none, hand-built ground truths may
+    carry none, and one physical object annotated in several cameras shares its id."""
+    how = draw(st.sampled_from(["unique", "unique", "none", "shared"]))
+    sc["uuid_mode"] = how
+    if how == "none":
+        for o in sc["gt"] + sc["est"]:
+            o["uuid"] = None
+    elif how == "shared":
+        for i, o in enumerate(sc["gt"]):
+            o["uuid"] = f"g{i % 3}"
 
 
 @st.composite
 def match_cases2d(draw, tier="quick", ties=False):
     big = tier == "thorough"
     mg = draw(st.sampled_from([4, 8, 20] if big else [3, 6, 10]))
-    sc = draw(GEN.scenes2d(max_gt=mg, max_est=mg, ties=ties, fam=draw(st.sampled_from(["autoware", "autoware", "tl"]))))
+    # cameras whose names are prefixes of one another (cam_front / cam_front_left, cam_traffic_light / ..._near) are still
+    # different frames
+    sc = draw(GEN.scenes2d(max_gt=mg, max_est=mg, ties=ties, fam=draw(st.sampled_from(["autoware", "autoware", "tl"])), cams=CAMS_X))
     mode = draw(st.sampled_from(["CENTERDISTANCE", "CENTERDISTANCE", "IOU2D"]))
     n = len(sc["targets"])
     radii = None
@@ -61,6 +80,7 @@ def match_cases2d(draw, tier="quick", ties=False):
             "task": draw(st.sampled_from(["detection2d", "detection2d", "tracking2d", "fp_validation2d"])),
         }
     )
+    _uuid_variants(draw, sc)
     return sc
 
 
